@@ -20,6 +20,8 @@ HARNESSES = [
  _h('flip3', bounds=B3 + '; axis in [-3,2]'),
  _h('flip3_all', bounds=B3 + '; axis=None'),
  _h('flip3_twice', bounds=B3 + '; axis in [-3,2]'),
+ _h('moveaxis3_list', bounds=B3 + '; source and destination are lists of two axes, entries in [-3,2], distinct after normalisation'),
+ _h('flip3_list', bounds=B3 + '; axis list of two entries in [-3,2], distinct after normalisation'),
 ]
 OUTSIDE = ['source dims other than 2/3 at the view level (dim 4 only in thorough index-level queries)', 'extents > 4', 'compile-time (constant) axes/shapes: see C09',
            'squeeze of an all-ones shape (0-d result) is not asserted', 'invalid arguments: see C15']
